@@ -252,6 +252,15 @@ func (fr *Frame) applyModifies(st, old *State, call ssa.CallInstruction, fn *ssa
 		fr.havocLoc(st, env, loc, call.Pos())
 	}
 	vc.reportEnvErrors(env)
+	if ct.Unframed {
+		// the listed locations plus the default effect on the arguments
+		cargs := call.Common().Args
+		a2 := args
+		if call.Common().IsInvoke() {
+			a2 = args[1:]
+		}
+		fr.havocArgs(st, cargs, a2, false, clk)
+	}
 }
 
 // havocLoc havocs one location expression of a modifies clause (evaluated in the pre-state).
@@ -364,7 +373,7 @@ func (fr *Frame) havocLoc(st *State, env *Env, loc *Expr, pos token.Pos) {
 // ---------- frame obligations (root function with an explicit frame) ----------
 
 func (vc *VC) frameActive() bool {
-	return vc.rootContract != nil && (vc.rootContract.Modifies != nil || vc.rootContract.Pure) && !vc.rootContract.Trusted
+	return vc.rootContract != nil && (vc.rootContract.Modifies != nil || vc.rootContract.Pure) && !vc.rootContract.Trusted && !vc.rootContract.Unframed
 }
 
 // inFrame: is address a within the root contract's modifies set (or freshly allocated)?
